@@ -959,6 +959,7 @@ def run(ctx):
     tier = ctx.tier
     cases = gen_cases(ctx, tier)
     pure_function_ties(ctx)
+    run_sequences(ctx)
     vecs = []
     for idx, case in enumerate(cases):
         v, exh = value_vectors(ctx, case, idx, tier)
@@ -1213,9 +1214,554 @@ def case_from_json(rep):
             'args': args_from_json(rep['args']), 'tag': 'replay', 'exhaustive': False}
 
 
+# ============================================================================= histories on a pool of objects
+# Random operation SEQUENCES on a small pool of Matrix objects.  After every step every object of the pool
+# (operands included) is observed -- rows/columns/bits/max_bits attributes and, through to_wirevector(),
+# its simulated value -- and compared with (a) a pure value-level reference (`ref_step`, nested lists) and
+# (b) the Coq pool model (`prun` in Lib/Matrix.v).  Nothing a call does not document as in-place may change.
+SEQ_INPLACE = ('iadd', 'isub', 'imul', 'imatmul', 'ipow')
+SEQ_UPDATE = ('setitem_s', 'setitem_m', 'put', 'setbits')
+REDUCERS = {'sum': 0, 'min': 1, 'max': 2, 'argmax': 3}
+
+
+def obj(r, c, b, mb, vals):
+    return {'r': r, 'c': c, 'b': b, 'mb': mb, 'v': vals}
+
+
+def ref_new(st, operands, b, mb):
+    """result object of a constructing call: exact integer result (spec) reduced mod 2^b"""
+    exact = spec({'op': st['op'], 'args': st.get('args', {})}, [o['v'] for o in operands], st.get('x'))
+    return obj(len(exact), len(exact[0]), b, mb, [[x % (1 << b) for x in row] for row in exact])
+
+
+def ref_step(pool, st):
+    """pool: dict id -> object (value level).  Returns the new pool; raises SpecError/KeyError when the step
+    is not applicable.  Mirrors the documentation, not the code."""
+    pool = {k: dict(o, v=[row[:] for row in o['v']]) for k, o in pool.items()}
+    op, g = st['op'], st.get('args', {})
+    a = pool[st['i']]
+    new = st.get('new')
+    if op == 'probe':
+        return pool
+    if op in ('copy', 'transpose', 'reversed', 'getitem', 'reshape', 'flatten'):
+        pool[new] = ref_new(st, [a], capb(a['b'], a['mb']), a['mb'])
+    elif op in ('add', 'sub', 'mul', 'matmul', 'iadd', 'isub', 'imul', 'imatmul'):
+        b = pool[st['j']]
+        base = op[1:] if op in SEQ_INPLACE else op
+        if base == 'add':
+            w = max(a['b'], b['b']) + 1
+        elif base == 'sub':
+            w = max(a['b'], b['b'])
+        elif base == 'mul':
+            w = a['b'] + b['b']
+        else:
+            w = a['c'] * b['r'] * (a['b'] + b['b'])
+        res = ref_new(dict(st, op=base), [a, b], capb(w, a['mb']), a['mb'])
+        if op in SEQ_INPLACE:
+            pool[st['i']] = dict(res, v=[row[:] for row in res['v']])
+        pool[new] = res
+    elif op in ('pow', 'ipow'):
+        n = g['n']
+        w = a['b']
+        for _ in range(max(n - 1, 0)):
+            w = capb(a['r'] * a['r'] * (w + a['b']), a['mb'])
+        res = ref_new(dict(st, op='pow'), [a], w, a['mb'])
+        if op == 'ipow':
+            pool[st['i']] = dict(res, v=[row[:] for row in res['v']])
+        pool[new] = res
+    elif op in ('hstack', 'vstack', 'concatenate'):
+        ops_ = [pool[k] for k in st['l']]
+        mb = max(o['mb'] for o in ops_)
+        pool[new] = ref_new(st, ops_, capb(max(o['b'] for o in ops_), mb), mb)
+    elif op in REDUCERS:
+        pool[new] = ref_new(st, [a], capb(g['bits'] or a['b'], 64), 64)
+    elif op == 'setitem_s':
+        r2 = ref_new({'op': 'setitem', 'args': dict(g, scalar=True), 'x': st['x']}, [a], a['b'], a['mb'])
+        pool[st['i']] = r2
+    elif op == 'setitem_m':
+        r2 = ref_new({'op': 'setitem', 'args': dict(g, scalar=False)}, [a, pool[st['j']]], a['b'], a['mb'])
+        pool[st['i']] = r2
+    elif op == 'put':
+        pool[st['i']] = ref_new({'op': 'put', 'args': dict(g, vmat=False)}, [a], a['b'], a['mb'])
+    elif op == 'setbits':
+        pool[st['i']] = obj(a['r'], a['c'], g['b'], a['mb'], [[x % (1 << g['b']) for x in row] for row in a['v']])
+    else:
+        raise AssertionError(op)
+    return pool
+
+
+def seq_exec(real, st, M_):
+    """the same step on real Matrix objects (dict id -> Matrix)"""
+    op, g = st['op'], st.get('args', {})
+    a = real[st['i']]
+    new = st.get('new')
+    if op == 'probe':
+        a.to_wirevector()
+    elif op == 'copy':
+        real[new] = a.copy()
+    elif op == 'transpose':
+        real[new] = a.transpose()
+    elif op == 'reversed':
+        real[new] = reversed(a)
+    elif op == 'getitem':
+        real[new] = a[g['key']]
+    elif op == 'reshape':
+        real[new] = a.reshape(g['nr'], g['nc'], order=g['order'])
+    elif op == 'flatten':
+        real[new] = a.flatten(g['order'])
+    elif op == 'pow':
+        real[new] = a ** g['n']
+    elif op == 'add':
+        real[new] = a + real[st['j']]
+    elif op == 'sub':
+        real[new] = a - real[st['j']]
+    elif op == 'mul':
+        real[new] = a * real[st['j']]
+    elif op == 'matmul':
+        real[new] = a @ real[st['j']]
+    elif op == 'hstack':
+        real[new] = M_.hstack(*[real[k] for k in st['l']])
+    elif op == 'vstack':
+        real[new] = M_.vstack(*[real[k] for k in st['l']])
+    elif op == 'concatenate':
+        real[new] = M_.concatenate([real[k] for k in st['l']], axis=g['axis'])
+    elif op in REDUCERS:
+        real[new] = getattr(M_, op)(a, axis=g['axis'], bits=g['bits'])
+    elif op == 'iadd':
+        real[new] = a.__iadd__(real[st['j']])
+    elif op == 'isub':
+        real[new] = a.__isub__(real[st['j']])
+    elif op == 'imul':
+        real[new] = a.__imul__(real[st['j']])
+    elif op == 'imatmul':
+        real[new] = a.__imatmul__(real[st['j']])
+    elif op == 'ipow':
+        real[new] = a.__ipow__(g['n'])
+    elif op == 'setitem_s':
+        a[g['key']] = st['x']
+    elif op == 'setitem_m':
+        a[g['key']] = real[st['j']]
+    elif op == 'put':
+        a.put(g['ind'], g['v'], mode=g['mode'])
+    elif op == 'setbits':
+        a.bits = g['b']
+    else:
+        raise AssertionError(op)
+
+
+def seq_coq_step(st, pos):
+    op, g = st['op'], st.get('args', {})
+    i = pos[st['i']]
+    j = pos.get(st.get('j'))
+    if op == 'probe':
+        return '(PProbe %d)' % i
+    if op in ('copy', 'transpose', 'reversed'):
+        return '(P%s %d)' % (op.capitalize(), i)
+    if op in ('getitem', 'setitem_s', 'setitem_m'):
+        k = g['key']
+        kr, kc = k if isinstance(k, tuple) else (k, slice(None))
+        if op == 'getitem':
+            return '(PGetitem %d %s %s)' % (i, key_coq(kr), key_coq(kc))
+        if op == 'setitem_s':
+            return '(PSetitemS %d %s %s %d)' % (i, key_coq(kr), key_coq(kc), st['x'])
+        return '(PSetitemM %d %s %s %d)' % (i, key_coq(kr), key_coq(kc), j)
+    if op == 'reshape':
+        return '(PReshape %d (%d) (%d) %s)' % (i, g['nr'], g['nc'], 'true' if g['order'] == 'F' else 'false')
+    if op == 'flatten':
+        return '(PFlatten %d %s)' % (i, 'true' if g['order'] == 'F' else 'false')
+    if op in ('pow', 'ipow'):
+        return '(P%s %d %d)' % ('Pow' if op == 'pow' else 'Ipow', i, g['n'])
+    if op in ('add', 'sub', 'mul', 'matmul', 'iadd', 'isub', 'imul', 'imatmul'):
+        return '(P%s %d %d)' % (op.capitalize(), i, j)
+    if op in ('hstack', 'vstack'):
+        return '(P%s [%s])' % (op.capitalize(), '; '.join('%d%%nat' % pos[k] for k in st['l']))
+    if op == 'concatenate':
+        return '(PConcat [%s] %d)' % ('; '.join('%d%%nat' % pos[k] for k in st['l']), g['axis'])
+    if op in REDUCERS:
+        return '(PReduce %d %d %s %s)' % (REDUCERS[op], i, AXES[g['axis']], zopt(g['bits']))
+    if op == 'put':
+        return '(PPut %d %s %s %s)' % (i, zl(g['ind']), zl(g['v']), MODES[g['mode']])
+    if op == 'setbits':
+        return '(PSetbits %d %d)' % (i, g['b'])
+    raise AssertionError(op)
+
+
+def gen_sequence(ctx, n, tier):
+    """one history: input objects + a list of applicable steps (ids, not positions)"""
+    rng = ctx.sub_rng('sequence', tier, n)
+    nin = rng.choice([1, 2, 2, 3])
+    r, c = rng.choice([(2, 2), (2, 2), (2, 3), (3, 2), (1, 3), (3, 1), (1, 2)])
+    inputs = []
+    for k in range(nin):
+        rr, cc = (r, c) if k == 0 or rng.random() < 0.7 else rng.choice([(c, r), (r, r), (c, c)])
+        mb = rng.choice([8, 10, 12, 16, 64])
+        inputs.append((rr, cc, rng.randint(2, 5), mb))
+    pool = {'in%d' % k: obj(o[0], o[1], o[2], o[3], [[0] * o[1] for _ in range(o[0])]) for k, o in enumerate(inputs)}
+    nsteps = rng.randint(4, 9 if tier == 'quick' else 12)
+    steps = []
+    recent = list(pool)
+    kinds = ['probe', 'copy', 'transpose', 'reversed', 'getitem', 'reshape', 'flatten', 'pow', 'add', 'sub', 'mul',
+             'matmul', 'stack', 'stack', 'reduce', 'iadd', 'isub', 'isub', 'imul', 'imatmul', 'ipow', 'setitem_s',
+             'setitem_m', 'put', 'setbits', 'setbits', 'setbits']
+    tries = 0
+    while len(steps) < nsteps and tries < 200:
+        tries += 1
+        ids = list(pool)
+
+        def pick():
+            # prefer objects touched recently (the histories that matter are about one object)
+            return rng.choice(recent[-3:]) if rng.random() < 0.65 else rng.choice(ids)
+        i = pick()
+        a = pool[i]
+        kind = rng.choice(kinds)
+        st = {'op': kind, 'i': i, 'new': 'r%d' % len(steps)}
+        big = a['b'] > 14
+        if kind in ('probe', 'copy', 'transpose', 'reversed'):
+            pass
+        elif kind == 'getitem':
+            if a['r'] > 1 and (a['r'] - 1) * a['c'] > 1 and rng.random() < 0.5:
+                st['args'] = {'key': rng.choice([slice(0, a['r'] - 1), slice(1, None), (slice(-(a['r'] - 1), None), slice(None))])}
+            elif a['c'] > 1 and a['r'] * (a['c'] - 1) > 1:
+                st['args'] = {'key': (slice(None), rng.choice([slice(0, a['c'] - 1), slice(1, None)]))}
+            else:
+                continue
+        elif kind == 'reshape':
+            st['args'] = {'nr': rng.choice([a['c'], -1]), 'nc': a['r'], 'order': rng.choice('CF')}
+        elif kind == 'flatten':
+            st['args'] = {'order': rng.choice('CF')}
+        elif kind in ('pow', 'ipow'):
+            n_ = rng.choice([0, 1, 2, 2])
+            if a['r'] != a['c'] or a['r'] > 2 or (n_ == 2 and a['b'] > 6):
+                continue
+            st['args'] = {'n': n_}
+        elif kind in ('add', 'sub', 'mul', 'iadd', 'isub', 'imul'):
+            cands = [k for k in ids if (pool[k]['r'], pool[k]['c']) == (a['r'], a['c'])]
+            st['j'] = rng.choice(cands)
+            if kind in ('mul', 'imul') and a['b'] + pool[st['j']]['b'] > 20:
+                continue
+        elif kind in ('matmul', 'imatmul'):
+            cands = [k for k in ids if pool[k]['r'] == a['c'] and pool[k]['b'] + a['b'] <= 10]
+            if not cands or a['r'] * a['c'] > 6:
+                continue
+            st['j'] = rng.choice(cands)
+        elif kind == 'stack':
+            st['op'] = rng.choice(['hstack', 'vstack', 'concatenate'])
+            ax = rng.choice([0, 1])
+            horiz = st['op'] == 'hstack' or (st['op'] == 'concatenate' and ax == 0)
+            cands = [k for k in ids if (pool[k]['r'] == a['r'] if horiz else pool[k]['c'] == a['c'])]
+            nmore = rng.choice([0, 0, 1, 2])
+            st['l'] = [i] + [rng.choice(cands) for _ in range(nmore)]
+            if st['op'] == 'concatenate':
+                st['args'] = {'axis': ax}
+            if sum(pool[k]['r'] * pool[k]['c'] for k in st['l']) > 16:
+                continue
+        elif kind == 'reduce':
+            st['op'] = rng.choice(list(REDUCERS))
+            st['args'] = {'axis': rng.choice([0, 1]), 'bits': rng.choice([None, None, rng.randint(1, 8)])}
+        elif kind == 'setitem_s':
+            st['args'] = {'key': (rng.randint(-a['r'], a['r'] - 1), rng.randint(-a['c'], a['c'] - 1))}
+            st['x'] = rng.randint(0, (1 << min(a['b'], 16)) - 1)
+        elif kind == 'setitem_m':
+            cands = [k for k in ids if pool[k]['c'] == a['c'] and pool[k]['r'] <= a['r']]
+            if not cands:
+                continue
+            st['j'] = rng.choice(cands)
+            rr = pool[st['j']]['r']
+            start = rng.randint(0, a['r'] - rr)
+            st['args'] = {'key': (slice(start, start + rr), slice(None))}
+        elif kind == 'put':
+            count = a['r'] * a['c']
+            st['args'] = {'ind': [rng.randint(-count, count + 1) for _ in range(rng.randint(1, 3))],
+                          'v': [rng.randint(0, (1 << min(a['b'], 16)) - 1) for _ in range(rng.randint(1, 3))],
+                          'mode': rng.choice(['wrap', 'clip'])}
+        elif kind == 'setbits':
+            lo, hi = 1, min(a['mb'], 12)
+            st['args'] = {'b': rng.randint(lo, hi)}
+        if big and st['op'] in ('mul', 'imul', 'matmul', 'imatmul', 'pow', 'ipow'):
+            continue
+        try:
+            pool2 = ref_step(pool, st)
+        except (SpecError, KeyError, IndexError, ZeroDivisionError):
+            continue
+        if any(o['b'] > o['mb'] or o['b'] > 40 for o in pool2.values()):
+            continue
+        pool = pool2
+        steps.append(st)
+        for k in (st['i'], st.get('j'), st['new']):
+            if k in pool:
+                recent.append(k)
+    return {'inputs': inputs, 'steps': steps, 'observe': 'every-step' if rng.random() < 0.75 else 'end-only'}
+
+
+def seq_vectors(ctx, seq, n, tier):
+    rng = ctx.sub_rng('seqvalues', tier, n)
+    vecs = []
+    for k in range(3 if tier == 'quick' else 5):
+        vec = []
+        for (r, c, b, mb) in seq['inputs']:
+            top = (1 << capb(b, mb)) - 1
+            if k == 0:
+                m = [top] * (r * c)
+            elif k == 1:
+                m = [rng.choice([top, max(top - 1, 0), top // 2 + 1]) for _ in range(r * c)]
+            else:
+                m = [rng.randint(0, top) for _ in range(r * c)]
+            vec.append(enc([m], capb(b, mb)))
+        vecs.append(tuple(vec))
+    return vecs
+
+
+def seq_run_real(job):
+    """build the history with the real class, observe every object after every step, simulate"""
+    seq, vecs = job
+    pyrtl.reset_working_block()
+    real = {}
+    names = []
+    for k, (r, c, b, mb) in enumerate(seq['inputs']):
+        w = pyrtl.Input(r * c * capb(b, mb), 'in%d' % k)
+        names.append(w.name)
+        real['in%d' % k] = M.Matrix(r, c, b, value=w, max_bits=mb)
+    snaps = []          # per step: list of (id, attrs, output name or None)
+    error = None
+    nouts = 0
+    last = len(seq['steps']) - 1
+    for t, st in enumerate(seq['steps']):
+        try:
+            seq_exec(real, st, M)
+        except Exception as e:          # any exception: the reference says the step is applicable
+            error = (t, '%s: %s' % (type(e).__name__, clean(str(e))))
+            break
+        snap = []
+        for k, m in real.items():
+            attrs = {'rows': m.rows, 'cols': m.columns, 'bits': m.bits, 'max_bits': m.max_bits,
+                     'signed': m.signed, 'is_matrix': isinstance(m, M.Matrix)}
+            oname = None
+            if seq['observe'] == 'every-step' or t == last:
+                try:
+                    wv = m.to_wirevector()
+                    o = pyrtl.Output(len(wv), 's%d_%s' % (t, k))
+                    o <<= wv
+                    oname = o.name
+                    attrs['len'] = len(wv)
+                    nouts += 1
+                except Exception as e:
+                    error = (t, 'to_wirevector of %s: %s: %s' % (k, type(e).__name__, clean(str(e))))
+                    break
+            snap.append((k, attrs, oname))
+        if error:
+            break
+        snaps.append(snap)
+    values = []
+    if nouts:
+        block = pyrtl.working_block()
+        outs = [w for w in block.wirevector_subset(pyrtl.Output)]
+        sim = pyrtl.Simulation(tracer=pyrtl.SimulationTrace(wires_to_track=outs, block=block), block=block)
+        for vec in vecs:
+            sim.step(dict(zip(names, vec)))
+            values.append({w.name: sim.inspect(w.name) for w in outs})
+    pyrtl.reset_working_block()
+    return snaps, values, error
+
+
+def seq_json(seq):
+    def sj(st):
+        d = dict(st)
+        if 'args' in d:
+            d['args'] = args_json(d['args'])
+        return d
+    return {'inputs_rows_cols_bits_maxbits': [list(o) for o in seq['inputs']], 'steps': [sj(s) for s in seq['steps']],
+            'observe': seq['observe']}
+
+
+def seq_from_json(d):
+    def sj(st):
+        st = dict(st)
+        if 'args' in st:
+            st['args'] = args_from_json(st['args'])
+        return st
+    return {'inputs': [tuple(o) for o in d['inputs_rows_cols_bits_maxbits']], 'steps': [sj(s) for s in d['steps']],
+            'observe': d.get('observe', 'every-step')}
+
+
+def seq_reference(seq, vec):
+    pool = {'in%d' % k: obj(r, c, capb(b, mb), mb, dec(v, r, c, capb(b, mb)))
+            for k, ((r, c, b, mb), v) in enumerate(zip(seq['inputs'], vec))}
+    out = []
+    for st in seq['steps']:
+        pool = ref_step(pool, st)
+        out.append(pool)
+    return out
+
+
+def seq_first_failure(seq, vecs, real):
+    """first disagreement between the implementation and the value-level reference, or None"""
+    snaps, values, error = real
+    for vi, vec in enumerate(vecs):
+        ref = seq_reference(seq, vec)
+        for t, st in enumerate(seq['steps']):
+            if error and error[0] == t:
+                return {'step': t, 'op': st['op'], 'kind': 'raises', 'what': 'step %d (%s) raises %s where it is defined'
+                        % (t, st['op'], error[1]), 'values': list(vec)}
+            if t >= len(snaps):
+                break
+            for (k, attrs, oname) in snaps[t]:
+                want = ref[t][k]
+                touched = k in (st.get('new'),) or (k == st['i'] and st['op'] in SEQ_INPLACE + SEQ_UPDATE)
+                who = 'result/target' if touched else 'BYSTANDER (not documented as modified by this call)'
+                got_attrs = (attrs['rows'], attrs['cols'], attrs['bits'], attrs['max_bits'], attrs['signed'])
+                want_attrs = (want['r'], want['c'], want['b'], want['mb'], False)
+                if got_attrs != want_attrs:
+                    return {'step': t, 'op': st['op'], 'kind': 'attrs' if touched else 'bystander', 'object': k,
+                            'what': 'after step %d (%s) object %s [%s] has (rows, columns, bits, max_bits, signed) = %s, '
+                                    'expected %s' % (t, st['op'], k, who, got_attrs, want_attrs), 'values': list(vec)}
+                if oname is not None:
+                    if attrs['len'] != want['r'] * want['c'] * want['b']:
+                        return {'step': t, 'op': st['op'], 'kind': 'len', 'object': k, 'values': list(vec),
+                                'what': 'after step %d (%s) len(%s.to_wirevector()) = %d' % (t, st['op'], k, attrs['len'])}
+                    got = dec(values[vi][oname], want['r'], want['c'], want['b'])
+                    if got != want['v']:
+                        return {'step': t, 'op': st['op'], 'kind': 'value' if touched else 'bystander', 'object': k,
+                                'what': 'after step %d (%s) object %s [%s] holds %s, expected %s' % (
+                                    t, st['op'], k, who, got, want['v']), 'values': list(vec),
+                                'expected': want['v'], 'got': got}
+    return None
+
+
+def seq_shrink(seq, vecs, fail):
+    """greedy: drop steps / shorten while the history still fails"""
+    best, bfail = seq, fail
+    best = dict(best, steps=best['steps'][:fail['step'] + 1])
+    changed = True
+    budget = 40
+    while changed and budget > 0:
+        changed = False
+        for k in range(len(best['steps']) - 1):
+            cand = dict(best, steps=best['steps'][:k] + best['steps'][k + 1:])
+            try:
+                seq_reference(cand, vecs[0])
+            except Exception:
+                continue
+            budget -= 1
+            f = seq_first_failure(cand, vecs, seq_run_real((cand, vecs)))
+            if f is not None:
+                best, bfail, changed = dict(cand, steps=cand['steps'][:f['step'] + 1]), f, True
+                break
+            if budget <= 0:
+                break
+    f = seq_first_failure(best, vecs, seq_run_real((best, vecs)))
+    return (best, f) if f is not None else (seq, fail)
+
+
+def seq_coq_expr(seq, vecs):
+    pos = {'in%d' % k: k for k in range(len(seq['inputs']))}
+    steps = []
+    for st in seq['steps']:
+        steps.append(seq_coq_step(st, pos))
+        if st['op'] not in ('probe',) + SEQ_UPDATE:
+            pos[st['new']] = len(pos)
+    ins = '; '.join('mx_in %d %d %d %d (nth %d v 0)' % (r, c, b, mb, k) for k, (r, c, b, mb) in enumerate(seq['inputs']))
+    return 'map (fun v : list Z => prun_out [%s] [%s]) [%s]' % (ins, '; '.join(steps), '; '.join(zl(list(t)) for t in vecs)), pos
+
+
+def run_sequences(ctx):
+    tier = ctx.tier
+    nseq = 140 if tier == 'quick' else 900
+    seqs = [gen_sequence(ctx, n, tier) for n in range(nseq)]
+    seqs = [s for s in seqs if s['steps']]
+    vecs = [seq_vectors(ctx, s, n, tier) for n, s in enumerate(seqs)]
+    box = {}
+    exprs, poss = [], []
+    for s, v in zip(seqs, vecs):
+        e, pos = seq_coq_expr(s, v)
+        exprs.append(e)
+        poss.append(pos)
+
+    def eval_model():
+        try:
+            box['model'] = ctx.coq_eval(exprs, IMPORTS, tag='c19seq', shard=(25 if tier == 'quick' else 60), jobs=6)
+        except Exception as e:
+            box['error'] = str(e)[-800:]
+    th = threading.Thread(target=eval_model)
+    th.start()
+    with multiprocessing.get_context('fork').Pool(8) as pool:
+        reals = pool.map(seq_run_real, list(zip(seqs, vecs)), chunksize=2)
+    th.join()
+    model = box.get('model')
+    if model is None:
+        ctx.model_mismatch('Lib/Matrix.v (prun) could not be evaluated: %s' % box.get('error'), {})
+    reported = {}
+    for n, (seq, vs, real) in enumerate(zip(seqs, vecs, reals)):
+        ctx.count('ops', 'sequence')
+        ctx.count('sequence_length', len(seq['steps']))
+        ctx.count('sequence_observe', seq['observe'])
+        for st in seq['steps']:
+            ctx.count('sequence_steps', st['op'])
+        pairs = set()
+        for x, y in zip(seq['steps'], seq['steps'][1:]):
+            pairs.add((x['op'], y['op']))
+        for pr in pairs:
+            ctx.count('sequence_adjacent_pairs_distinct', 'any')
+        for vi, vec in enumerate(vs):
+            ctx.case(('sequence', repr(seq_json(seq)), vec), nontrivial=any(vec),
+                     sample=(dict(seq_json(seq), wire_inputs=list(vec)) if n % 60 == 0 and vi == 0 else None))
+        fail = seq_first_failure(seq, vs, real)
+        if fail is not None:
+            sig = 'sequence:%s:%s' % (fail['kind'], fail['op'])
+            if reported.get(sig, 0) < 2 and len(reported) < 8:
+                reported[sig] = reported.get(sig, 0) + 1
+                sseq, sfail = seq_shrink(seq, vs, fail)
+                sig = 'sequence:%s:%s' % (sfail['kind'], sfail['op'])
+                ctx.spec_violation(sig, 'Matrix history: ' + sfail['what'],
+                                   dict(sequence=seq_json(sseq), wire_inputs=sfail['values'], first_failure=sfail,
+                                        seed=ctx.seed, tier=ctx.tier, original_sequence=seq_json(seq)))
+        # tie with the Coq pool model
+        if model is None:
+            continue
+        snaps, values, error = real
+        inv = {}
+        for k, pidx in poss[n].items():
+            inv[pidx] = k
+        for vi, vec in enumerate(vs):
+            mruns = model[n][vi]
+            bad = None
+            if len(mruns) != len(snaps) and not (error and len(mruns) >= len(snaps)):
+                bad = 'model runs %d steps, implementation %d' % (len(mruns), len(snaps))
+            for t in range(min(len(mruns), len(snaps))):
+                if bad:
+                    break
+                got = {k: (attrs, oname) for (k, attrs, oname) in snaps[t]}
+                if len(mruns[t]) != len(got):
+                    bad = 'pool size after step %d: model %d, implementation %d' % (t, len(mruns[t]), len(got))
+                    break
+                for pidx, (mbits, mdat, mwv, mmaxb) in enumerate(mruns[t]):
+                    attrs, oname = got[inv[pidx]]
+                    if (attrs['bits'], attrs['max_bits'], attrs['rows']) != (mbits, mmaxb, len(mdat)):
+                        bad = 'step %d object %s: attributes %s vs model bits=%d maxb=%d rows=%d' % (
+                            t, inv[pidx], attrs, mbits, mmaxb, len(mdat))
+                        break
+                    if oname is not None and values[vi][oname] != mwv:
+                        bad = 'step %d (%s) object %s: wire %d vs model %d' % (
+                            t, seq['steps'][t]['op'], inv[pidx], values[vi][oname], mwv)
+                        break
+            if bad:
+                ctx.model_mismatch('Matrix history: implementation != Lib/Matrix.v prun: ' + bad,
+                                   dict(sequence=seq_json(seq), wire_inputs=list(vec)))
+                break
+
+
 def replay(ctx, data):
     """re-run one recorded case: data = a VIOLATION file written by the runner"""
     rep = data.get('replay', data)
+    if 'sequence' in rep:
+        seq = seq_from_json(rep['sequence'])
+        vecs = [tuple(rep['wire_inputs'])]
+        real = seq_run_real((seq, vecs))
+        fail = seq_first_failure(seq, vecs, real)
+        if fail is not None:
+            ctx.spec_violation('sequence:%s:%s' % (fail['kind'], fail['op']), 'Matrix history: ' + fail['what'],
+                               dict(sequence=seq_json(seq), wire_inputs=fail['values'], first_failure=fail))
+        print(json.dumps({'sequence': seq_json(seq), 'first_failure': fail}, default=str))
+        return
     case = case_from_json(rep)
     vec = tuple(rep['wire_inputs'])
     infos, outs = run_batch([case], [[vec]])
